@@ -72,7 +72,7 @@ macro "gstep" : tactic => `(tactic|
      | exact execD_vecImm2 (hmn := by rfl) (hvl := by assumption) (ha := by rfl) (hb := by rfl) (hd := lt_len32 _ _ rfl (by decide)) (hr := by rfl) ..))
 
 /-- registers that live across the GHASH macros -/
-def persistent : List Nat := [4, 5, 19, 20, 21, 22, 23, 24, 25, 26, 29, 30, 31]
+def persistent : List Nat := [4, 5, 6, 7, 8, 9, 14, 19, 20, 21, 22, 23, 24, 25, 26, 29, 30, 31]
 
 /-- nothing but vector registers changes, and the persistent vector registers other than `Out` do not -/
 structure VecOnly (Out : Nat) (s s' : State) : Prop where
@@ -111,7 +111,7 @@ set_option hygiene false in
 macro "keep_tac" : tactic => `(tactic|
   (intro n hn hne
    simp only [persistent, List.mem_cons, List.not_mem_nil, or_false] at hn
-   rcases hn with rfl | rfl | rfl | rfl | rfl | rfl | rfl | rfl | rfl | rfl | rfl | rfl | rfl <;>
+   rcases hn with rfl | rfl | rfl | rfl | rfl | rfl | rfl | rfl | rfl | rfl | rfl | rfl | rfl | rfl | rfl | rfl | rfl | rfl <;>
      first
      | (exfalso; exact hne rfl)
      | simp only [vreg, List.getD_cons_succ, List.getD_cons_zero]))
@@ -119,8 +119,7 @@ macro "keep_tac" : tactic => `(tactic|
 set_option maxRecDepth 100000 in
 set_option maxHeartbeats 1000000 in
 theorem mul_spec (vl F FS In : Nat) (hvl : validVl vl = true)
-    (hinst : (F = 19 ∧ FS = 25 ∧ In = 19) ∨ (F = 19 ∧ FS = 25 ∧ In = 4) ∨ (F = 19 ∧ FS = 25 ∧ In = 5) ∨
-             (F = 29 ∧ FS = 30 ∧ In = 20) ∨ (F = 19 ∧ FS = 25 ∧ In = 20))
+    (hF : (F = 19 ∧ FS = 25) ∨ (F = 29 ∧ FS = 30)) (hIn : In ∈ [19, 4, 5, 20, 6, 7, 8, 9])
     (s : State) (hV : s.vec.length = 32) :
     ∃ s', execList (mulCode vl F FS In) s = .ok s' ∧ VecOnly 0 s s' ∧
       ∀ l, l < vl / 16 →
@@ -133,7 +132,8 @@ theorem mul_spec (vl F FS In : Nat) (hvl : validVl vl = true)
   obtain ⟨gpr, vec, k, fl, mem, syms, frame⟩ := s
   simp only at hV
   obtain ⟨b0, b1, b2, b3, b4, b5, b6, b7, b8, b9, b10, b11, b12, b13, b14, b15, b16, b17, b18, b19, b20, b21, b22, b23, b24, b25, b26, b27, b28, b29, b30, b31, rfl⟩ := list32 vec hV
-  rcases hinst with ⟨rfl, rfl, rfl⟩ | ⟨rfl, rfl, rfl⟩ | ⟨rfl, rfl, rfl⟩ | ⟨rfl, rfl, rfl⟩ | ⟨rfl, rfl, rfl⟩
+  simp only [List.mem_cons, List.not_mem_nil, or_false] at hIn
+  rcases hF with ⟨rfl, rfl⟩ | ⟨rfl, rfl⟩ <;> rcases hIn with rfl | rfl | rfl | rfl | rfl | rfl | rfl | rfl
   all_goals
     apply Exists.intro
     apply And.intro
@@ -174,7 +174,7 @@ theorem red1_spec (vl : Nat) (hvl : validVl vl = true) (s : State) (hV : s.vec.l
 
 set_option maxRecDepth 100000 in
 set_option maxHeartbeats 1000000 in
-theorem red2_spec (vl Out : Nat) (hvl : validVl vl = true) (hout : Out = 4 ∨ Out = 5 ∨ Out = 29 ∨ Out = 21)
+theorem red2_spec (vl Out : Nat) (hvl : validVl vl = true) (hout : Out = 4 ∨ Out = 5 ∨ Out = 29 ∨ Out = 14 ∨ Out = 21)
     (s : State) (hV : s.vec.length = 32) :
     ∃ s', execList ((redCode vl Out).drop 6) s = .ok s' ∧ VecOnly Out s s' ∧ vreg s' Out < 2 ^ (8 * vl) ∧
       ∀ l, l < vl / 16 →
@@ -189,7 +189,7 @@ theorem red2_spec (vl Out : Nat) (hvl : validVl vl = true) (hout : Out = 4 ∨ O
   obtain ⟨gpr, vec, k, fl, mem, syms, frame⟩ := s
   simp only at hV
   obtain ⟨b0, b1, b2, b3, b4, b5, b6, b7, b8, b9, b10, b11, b12, b13, b14, b15, b16, b17, b18, b19, b20, b21, b22, b23, b24, b25, b26, b27, b28, b29, b30, b31, rfl⟩ := list32 vec hV
-  rcases hout with rfl | rfl | rfl | rfl
+  rcases hout with rfl | rfl | rfl | rfl | rfl
   all_goals
     apply Exists.intro
     apply And.intro
@@ -209,29 +209,18 @@ theorem red2_spec (vl Out : Nat) (hvl : validVl vl = true) (hout : Out = 4 ∨ O
 theorem mem_persistent_26 : 26 ∈ persistent := by decide
 
 /-- **`mul` + `reduce` compute the model's field multiplication `gmulR` on every 128-bit lane** (A1, arithmetic
-    part), for the five register assignments that occur in `gHashBlocks` -/
+    part), for every register assignment that occurs in `gHashBlocks`, `sealAsm` and `openAsm`: factor H (V19, with
+    H.lo ⊕ H.hi in V25) or the vector of powers (V29, V30); input any of V19 V4 V5 V20 V6 V7 V8 V9; output any of
+    V4 V5 V29 V14 V21; the temporaries V0–V3, V13, V27, V28 and the constant V26 are the same everywhere -/
 theorem mulRed_spec (vl F FS In Out : Nat) (hvl : validVl vl = true)
-    (hinst : (F = 19 ∧ FS = 25 ∧ In = 19 ∧ Out = 4) ∨ (F = 19 ∧ FS = 25 ∧ In = 4 ∧ Out = 5) ∨
-             (F = 19 ∧ FS = 25 ∧ In = 5 ∧ Out = 29) ∨ (F = 29 ∧ FS = 30 ∧ In = 20 ∧ Out = 21) ∨
-             (F = 19 ∧ FS = 25 ∧ In = 20 ∧ Out = 21))
+    (hF : (F = 19 ∧ FS = 25) ∨ (F = 29 ∧ FS = 30)) (hIn : In ∈ [19, 4, 5, 20, 6, 7, 8, 9])
+    (hout : Out = 4 ∨ Out = 5 ∨ Out = 29 ∨ Out = 14 ∨ Out = 21)
     (s : State) (hV : s.vec.length = 32)
     (hFS : ∀ l, l < vl / 16 → lo64 (lane 128 l (vreg s FS)) = lo64 (lane 128 l (vreg s F)) ^^^ hi64 (lane 128 l (vreg s F)))
     (hRed : ∀ l, l < vl / 16 → lo64 (lane 128 l (vreg s 26)) = poly) :
     ∃ s', execList (mulRedCode vl F FS In Out) s = .ok s' ∧ VecOnly Out s s' ∧ vreg s' Out < 2 ^ (8 * vl) ∧
       ∀ l, l < vl / 16 → lane 128 l (vreg s' Out) = gmulR (lane 128 l (vreg s F)) (lane 128 l (vreg s In)) := by
-  have hi3 : (F = 19 ∧ FS = 25 ∧ In = 19) ∨ (F = 19 ∧ FS = 25 ∧ In = 4) ∨ (F = 19 ∧ FS = 25 ∧ In = 5) ∨
-      (F = 29 ∧ FS = 30 ∧ In = 20) ∨ (F = 19 ∧ FS = 25 ∧ In = 20) := by
-    rcases hinst with ⟨a, b, c, _⟩ | ⟨a, b, c, _⟩ | ⟨a, b, c, _⟩ | ⟨a, b, c, _⟩ | ⟨a, b, c, _⟩
-    · exact Or.inl ⟨a, b, c⟩
-    · exact Or.inr (Or.inl ⟨a, b, c⟩)
-    · exact Or.inr (Or.inr (Or.inl ⟨a, b, c⟩))
-    · exact Or.inr (Or.inr (Or.inr (Or.inl ⟨a, b, c⟩)))
-    · exact Or.inr (Or.inr (Or.inr (Or.inr ⟨a, b, c⟩)))
-  have hout : Out = 4 ∨ Out = 5 ∨ Out = 29 ∨ Out = 21 := by
-    rcases hinst with ⟨_, _, _, d⟩ | ⟨_, _, _, d⟩ | ⟨_, _, _, d⟩ | ⟨_, _, _, d⟩ | ⟨_, _, _, d⟩ <;> simp [d]
-  have hFp : F ∈ persistent ∧ FS ∈ persistent ∧ In ∈ persistent ∧ F ≠ 0 ∧ FS ≠ 0 ∧ In ≠ 0 := by
-    rcases hi3 with ⟨rfl, rfl, rfl⟩ | ⟨rfl, rfl, rfl⟩ | ⟨rfl, rfl, rfl⟩ | ⟨rfl, rfl, rfl⟩ | ⟨rfl, rfl, rfl⟩ <;> decide
-  obtain ⟨s1, hrun1, hv1, hl1⟩ := mul_spec vl F FS In hvl hi3 s hV
+  obtain ⟨s1, hrun1, hv1, hl1⟩ := mul_spec vl F FS In hvl hF hIn s hV
   obtain ⟨s2, hrun2, hv2, hl2⟩ := red1_spec vl hvl s1 hv1.lenV
   obtain ⟨s3, hrun3, hv3, hlt3, hl3⟩ := red2_spec vl Out hvl hout s2 hv2.lenV
   have hcode : mulRedCode vl F FS In Out = mulCode vl F FS In ++ ((redCode vl 0).take 6 ++ (redCode vl Out).drop 6) := rfl
